@@ -230,6 +230,11 @@ func cmdCheck(args []string) {
 		}
 	}
 	// vacuity
+	// consistency of assumed callee contracts at every call site
+	for _, b := range checkConsistency(c, res, dir) {
+		fmt.Printf("BROKEN: a callee contract contradicts the state at its call site: %s\n", b)
+		exit = 2
+	}
 	// vacuity: the entry of every procedure and at least one of its exits must be reachable
 	exitsOK := map[string]bool{}
 	hasExit := map[string]bool{}
